@@ -863,7 +863,13 @@ class Evaluator:
             if callee.kind in ("ext", "builtin"):
                 return self.call_ext(callee.obj, args, kwargs, starkw, e, st, fr)
         if isinstance(callee, App) and callee.op == "bound":
-            return self.invoke(callee.args[0].obj, callee.args[1], args, kwargs, starkw, e, st, fr)
+            m_, recv_ = callee.args[0].obj, callee.args[1]
+            if m_.kind == "staticmethod":
+                return self.invoke(m_, None, args, kwargs, starkw, e, st, fr)
+            if isinstance(recv_, Ref) and recv_.kind == "class" and m_.kind == "method":
+                # a plain function taken from its class (f = Cls.func; f(a)): no implicit first argument, as in Cls.func(a)
+                return self.invoke(m_, None, args, kwargs, starkw, e, st, fr, unbound=True)
+            return self.invoke(m_, recv_, args, kwargs, starkw, e, st, fr)
         if isinstance(callee, App) and callee.op == "cmeth":
             return self.call_method(callee.args[0], callee.args[1].v, args, kwargs, starkw, e, st, fr)
         if isinstance(callee, App) and callee.op in ("lambda", "localfunc") and not kwargs and starkw is None:
